@@ -2041,30 +2041,7 @@ func (te *TemplateEngine) processDocumentLevelLoops(doc *Document, data *Templat
 // replaceVariablesInParagraph 在段落中替换变量（改进版本，更好地保持样式）
 func (te *TemplateEngine) replaceVariablesInParagraph(para *Paragraph, data *TemplateData) error {
 	// 首先识别所有变量占位符的位置
-	fullText := ""
-	runInfos := make([]struct {
-		startIndex int
-		endIndex   int
-		run        *Run
-	}, 0)
-
-	currentIndex := 0
-	for i := range para.Runs {
-		runText := para.Runs[i].Text.Content
-		if runText != "" {
-			runInfos = append(runInfos, struct {
-				startIndex int
-				endIndex   int
-				run        *Run
-			}{
-				startIndex: currentIndex,
-				endIndex:   currentIndex + len(runText),
-				run:        &para.Runs[i],
-			})
-			fullText += runText
-			currentIndex += len(runText)
-		}
-	}
+	runInfos, fullText := te.collectTemplateRuns(para)
 
 	// 如果没有文本内容，直接返回
 	if fullText == "" {
@@ -2097,6 +2074,82 @@ func (te *TemplateEngine) replaceVariablesInParagraph(para *Paragraph, data *Tem
 		para.Runs = newRuns
 	}
 
+	return nil
+}
+
+// templateRunInfo 段落的一个Run在合并文本中的位置。
+// startIndex == endIndex 表示不含文本的Run（图片、分页符、域字符、域指令），
+// 它位于合并文本的两个字符位置之间，不参与占位符匹配，但重建段落时要保留在原位置
+type templateRunInfo = struct {
+	startIndex int
+	endIndex   int
+	run        *Run
+}
+
+// collectTemplateRuns 收集段落中的Run及其在合并文本中的位置，返回合并文本
+func (te *TemplateEngine) collectTemplateRuns(para *Paragraph) ([]templateRunInfo, string) {
+	fullText := ""
+	runInfos := make([]templateRunInfo, 0, len(para.Runs))
+
+	currentIndex := 0
+	for i := range para.Runs {
+		run := &para.Runs[i]
+		runText := run.Text.Content
+		hasNonText := run.Break != nil || run.Drawing != nil || run.FieldChar != nil || run.InstrText != nil
+
+		if runText != "" {
+			textRun := run
+			if hasNonText {
+				// 同一个Run中文本之后还有非文本内容（序列化顺序即文本在前）：拆成文本部分和非文本部分
+				textOnly := *run
+				textOnly.Break, textOnly.Drawing, textOnly.FieldChar, textOnly.InstrText = nil, nil, nil, nil
+				textRun = &textOnly
+			}
+			runInfos = append(runInfos, templateRunInfo{
+				startIndex: currentIndex,
+				endIndex:   currentIndex + len(runText),
+				run:        textRun,
+			})
+			fullText += runText
+			currentIndex += len(runText)
+		}
+
+		if hasNonText {
+			nonTextRun := run
+			if runText != "" {
+				nonTextOnly := *run
+				nonTextOnly.Text = Text{}
+				nonTextRun = &nonTextOnly
+			}
+			runInfos = append(runInfos, templateRunInfo{
+				startIndex: currentIndex,
+				endIndex:   currentIndex,
+				run:        nonTextRun,
+			})
+		}
+	}
+
+	return runInfos, fullText
+}
+
+// nonTextRunsBetween 返回位置在 [from, to) 内的不含文本的Run（克隆）
+func (te *TemplateEngine) nonTextRunsBetween(runInfos []templateRunInfo, from, to int) []Run {
+	var runs []Run
+	for _, runInfo := range runInfos {
+		if runInfo.startIndex == runInfo.endIndex && runInfo.startIndex >= from && runInfo.startIndex < to {
+			runs = append(runs, te.cloneRun(runInfo.run))
+		}
+	}
+	return runs
+}
+
+// firstTextRun 返回第一个含文本的Run，没有则返回nil
+func (te *TemplateEngine) firstTextRun(runInfos []templateRunInfo) *Run {
+	for _, runInfo := range runInfos {
+		if runInfo.endIndex > runInfo.startIndex {
+			return runInfo.run
+		}
+	}
 	return nil
 }
 
@@ -2192,9 +2245,13 @@ func (te *TemplateEngine) replaceVariablesSequentially(originalRunInfos []struct
 			// 为变量选择合适的样式（使用覆盖变量位置的Run样式）
 			varRun := te.findRunForPosition(originalRunInfos, varStart)
 			if varRun != nil {
+				// 紧挨在占位符之前的非文本Run保持在替换文本之前
+				newRuns = append(newRuns, te.nonTextRunsBetween(originalRunInfos, varStart, varStart+1)...)
 				newRun := te.cloneRun(varRun)
 				newRun.Text.Content = replacementText
 				newRuns = append(newRuns, newRun)
+				// 夹在占位符字符之间的非文本Run不能丢，放在替换文本之后
+				newRuns = append(newRuns, te.nonTextRunsBetween(originalRunInfos, varStart+1, varEnd)...)
 				hasChanges = true
 			}
 		} else {
@@ -2213,6 +2270,9 @@ func (te *TemplateEngine) replaceVariablesSequentially(originalRunInfos []struct
 		afterRuns := te.extractRunsForSegment(originalRunInfos, currentPos, len(originalText), afterText)
 		newRuns = append(newRuns, afterRuns...)
 	}
+
+	// 位于全部文本之后的非文本Run
+	newRuns = append(newRuns, te.nonTextRunsBetween(originalRunInfos, len(originalText), len(originalText)+1)...)
 
 	// 如果没有找到任何变量但文本发生了变化，处理条件语句
 	if !hasChanges {
@@ -2268,17 +2328,16 @@ func (te *TemplateEngine) processConditionals(originalRunInfos []struct {
 		return newRuns, false
 	}
 
-	// 有条件语句被处理，简化处理
-	if len(originalRunInfos) == 1 {
-		newRun := te.cloneRun(originalRunInfos[0].run)
+	// 有条件语句被处理，简化处理：使用第一个文本Run的样式，
+	// 不含文本的Run（图片、分页符、域）保留：位于全部文本之前的仍在前，其余放在文本之后
+	newRuns := te.nonTextRunsBetween(originalRunInfos, 0, 1)
+	if textRun := te.firstTextRun(originalRunInfos); textRun != nil {
+		newRun := te.cloneRun(textRun)
 		newRun.Text.Content = processedText
-		return []Run{newRun}, true
+		newRuns = append(newRuns, newRun)
 	}
-
-	// 多个Run的情况，使用第一个Run的样式
-	newRun := te.cloneRun(originalRunInfos[0].run)
-	newRun.Text.Content = processedText
-	return []Run{newRun}, true
+	newRuns = append(newRuns, te.nonTextRunsBetween(originalRunInfos, 1, len(originalText)+1)...)
+	return newRuns, true
 }
 
 // extractRunsForSegment 为文本片段提取相应的Run（改进版本）
@@ -2290,6 +2349,14 @@ func (te *TemplateEngine) extractRunsForSegment(originalRunInfos []struct {
 	runs := make([]Run, 0)
 
 	for _, runInfo := range originalRunInfos {
+		// 不含文本的Run：位置落在本段内（含段首，不含段尾）时原样保留在两侧文本之间
+		if runInfo.startIndex == runInfo.endIndex {
+			if runInfo.startIndex >= segmentStart && runInfo.startIndex < segmentEnd {
+				runs = append(runs, te.cloneRun(runInfo.run))
+			}
+			continue
+		}
+
 		// 检查Run是否与文本段有重叠
 		if runInfo.endIndex > segmentStart && runInfo.startIndex < segmentEnd {
 			overlapStart := max(runInfo.startIndex, segmentStart)
@@ -2326,11 +2393,8 @@ func (te *TemplateEngine) findRunForPosition(originalRunInfos []struct {
 			return runInfo.run
 		}
 	}
-	// 如果没找到，返回第一个Run
-	if len(originalRunInfos) > 0 {
-		return originalRunInfos[0].run
-	}
-	return nil
+	// 如果没找到，返回第一个含文本的Run
+	return te.firstTextRun(originalRunInfos)
 }
 
 // max 返回两个整数中的较大值
